@@ -309,6 +309,10 @@ def run_history(case, journal):
         try:
             if kind == 'add':
                 prob.addconstraint(cons[op[1]])
+                if op[1] in m_cons:
+                    bump('probe.constraint_added_while_already_present')
+                if pool['constraints'][op[1]]['t'] != 'aff':
+                    bump('probe.piecewise_linear_constraint_added')
                 m_cons.append(op[1])
             elif kind == 'del':
                 prob.delconstraint(cons[op[1]])
@@ -390,6 +394,10 @@ def run_history(case, journal):
                             if abs(a - b) > 1e-5 * max(1.0, abs(a), abs(b)):   # both LPs are solved to reltol 1e-6 / abstol 1e-7
                                 return V('solve-differs-from-fresh', 'op %d: optimal value %r, fresh op %r' % (i, a, b), op=kind, what='value')
                         bump('solves_compared.' + r1[1].replace(' ', '_'))
+                        if effective_edits >= 1:
+                            bump('probe.solve_compared_with_fresh_op_after_a_deletion')
+                        if len(set(m_cons)) < len(m_cons):
+                            bump('probe.solve_with_a_constraint_present_twice')
                     else:
                         bump('solves_inconclusive')
         except DOCUMENTED as e:
